@@ -618,6 +618,9 @@ def gen_problem(rng, profile='general', force=None):
         up_['general.safety_step_thresh'] = fh(float(_choice(rng, [0.1, 0.9])))
     if rng.random() < 0.1:
         up_['interpolation.precondition'] = False
+    if rng.random() < 0.15:
+        # the logger abbreviates x when n >= this threshold (default 6 > every n drawn here): exercise that branch too
+        up_['logging.n_to_print_whole_x_vector'] = int(rng.integers(1, 4))
 
     # ---- regulariser
     reg = None
